@@ -63,6 +63,7 @@ def run(ctx: Ctx) -> None:
 
 
 KNOCKOUTS = [
+    Knockout("one-qubit-move-register-from-neighbour-op", "graphiq/solvers/evolutionary_solver.py", sub_nth('            reg = circuit.dag.edges[edge]["reg"]\n', '            reg = circuit.dag.nodes[edge[0]]["op"].q_registers[0]\n', 1), "move.edge-roles", "one-qubit gate"),
     Knockout("conversion-gates-through-front-insertion-helper", "graphiq/solvers/alternate_target_solver.py", sub_once("    score, circ = solver.result\n", "    score, circ = solver.result\n    for gate in []:\n        solver._add_one_qubit_gate(circ, [type(gate)], gate.register)\n"), "own.frontinsert", "outside TimeReversedSolver"),
     Knockout("measure-reset-target-read-from-emitter-edge", "graphiq/solvers/evolutionary_solver.py", sub_once('            target=circuit.dag.edges[edge1]["reg"],\n            target_type="p",\n            noise=self._identify_noise(\n                ops.MeasurementCNOTandReset', '            target=circuit.dag.edges[edge0]["reg"],\n            target_type="p",\n            noise=self._identify_noise(\n                ops.MeasurementCNOTandReset'), "move.edge-roles", "not taken from its edges"),
     Knockout("fixed-label-after-insertion", TRS, sub_nth('        gate.add_labels("Fixed")\n        circuit.insert_at(gate, [edge0, edge1])\n', '        circuit.insert_at(gate, [edge0, edge1])\n        gate.add_labels("Fixed")\n', 0), "typestate.fixed", "not labelled Fixed"),
